@@ -119,8 +119,3 @@ def run(chk):
     else:
         for i in mm:
             chk.tie_break("startbit-shard", shard[i][1], "vm_compute differs", shard[i][2])
-
-
-def replay(chk, rep):
-    print(json.dumps(rep, indent=1))
-    return 0
